@@ -519,7 +519,19 @@ impl ImplState {
             Op::App(axis, cap, oshape) => {
                 let mut t = self.materialize(*cap)?;
                 let o = other_tensor_ref(oshape);
-                let other = Tensor::from_data(o.shape.as_slice(), o.data);
+                // `other` holds the same elements but is stored transposed (non-contiguous)
+                // whenever the capacity is odd, so both copy paths of append see both kinds
+                let other = if *cap % 2 == 1 {
+                    let rev: Vec<usize> = o.shape.iter().rev().copied().collect();
+                    let mut tt = Tensor::<u32>::zeros(rev.as_slice());
+                    tt.transpose();
+                    for (i, idx) in all_indices(&o.shape).iter().enumerate() {
+                        *tt.get_mut(idx.as_slice()).unwrap() = o.data[i];
+                    }
+                    tt
+                } else {
+                    Tensor::from_data(o.shape.as_slice(), o.data)
+                };
                 t.append(*axis, &other).map_err(|_| Fail::Err)?;
                 self.adopt(t);
             }
@@ -756,12 +768,7 @@ fn gen_op(rng: &mut Rng, shape: &[usize], allow_owned: bool) -> Op {
             1 => Op::Tr,
             2 => Op::Mv(axis(rng), axis(rng)),
             3 | 4 | 5 => Op::Sl(gen_items(rng, shape, false)),
-            6 | 7 => {
-                if r > 4 {
-                    continue;
-                }
-                Op::Slc(gen_items(rng, shape, true))
-            }
+            6 | 7 => Op::Slc(gen_items(rng, shape, true)),
             8 => {
                 let a = axis(rng);
                 let n = shape.get(a).copied().unwrap_or(1);
@@ -1041,6 +1048,46 @@ fn boundary_cases(out: &mut Out) {
             one(out, &src, "contiguous", &[Op::Slc(vec![Item::I(i)])]);
         }
     }
+    // rank 5 and 6 (the recursive branch of copy_range_into_slice): reversed / stepped /
+    // shrinking ranges at every axis position, fewer items than axes, index items
+    for shape in [vec![2usize, 2, 2, 2, 3], vec![3, 1, 2, 2, 2], vec![2, 1, 2, 2, 2, 2], vec![2, 3, 1, 2, 0]] {
+        let r = shape.len();
+        let mut dims = vec![];
+        let mut p = 1usize;
+        for &n in shape.iter().rev() {
+            dims.insert(0, (n, p));
+            p *= n.max(1);
+        }
+        let src = Source { storelen: min_data_len(&dims), dims: dims.clone() };
+        let mut tsrc = Source { storelen: min_data_len(&dims), dims: dims.clone() };
+        tsrc.dims.reverse();
+        let specials = [
+            Item::R(-1, None, -2),
+            Item::R(-1, None, -1),
+            Item::R(0, Some(1), 1),
+            Item::R(5, None, 1),
+            Item::R(1, None, -1),
+            Item::I(-1),
+            Item::I(0),
+        ];
+        for pos in 0..r {
+            for sp in &specials {
+                for n_items in [pos + 1, r] {
+                    let items: Vec<Item> = (0..n_items)
+                        .map(|k| if k == pos { sp.clone() } else { Item::R(0, None, 1) })
+                        .collect();
+                    one(out, &src, "contiguous", &[Op::Slc(items.clone())]);
+                    one(out, &tsrc, "permuted", &[Op::Slc(items.clone())]);
+                    // force the copying path with a reversed first axis as well
+                    let mut items2 = items.clone();
+                    if pos != 0 {
+                        items2[0] = Item::R(-1, None, -1);
+                        one(out, &src, "contiguous", &[Op::Slc(items2)]);
+                    }
+                }
+            }
+        }
+    }
     // 2-D: index + reversed range, fewer items than axes, on a transposed source
     for (r, c) in [(2usize, 3usize), (3, 1), (1, 3), (2, 0), (0, 2)] {
         let src = Source { dims: vec![(r, 1), (c, r.max(1))], storelen: min_data_len(&[(r, 1), (c, r.max(1))]) };
@@ -1124,7 +1171,7 @@ fn large_copy_cases(out: &mut Out, rng: &mut Rng, n: usize) {
                 rng.shuffle(&mut p);
                 vec![Op::Perm(p), Op::Tc]
             }
-            5 if r <= 4 => vec![Op::Slc((0..r).map(|_| Item::R(0, None, 1)).collect())],
+            5 => vec![Op::Slc((0..r).map(|_| Item::R(if rng.chance(1, 2) { 0 } else { -1 }, None, if rng.chance(1, 2) { 1 } else { -1 })).collect())],
             6 => {
                 // stepped slice of the last axis, then copy
                 let step = 1 + rng.usize_below(3) as isize;
@@ -1140,6 +1187,54 @@ fn large_copy_cases(out: &mut Out, rng: &mut Rng, n: usize) {
     }
 }
 
+/// `SliceRange::{steps, resolve, resolve_clamped}` driven directly (request `R start stop step n`).
+/// Oracle: `steps` must be the number of indices CPython's slice visits.
+fn range_cases(out: &mut Out) {
+    for n in 0..=5usize {
+        let lim = n as isize + 2;
+        for step in [-7isize, -3, -2, -1, 1, 2, 3, 7] {
+            for s in -lim..=lim {
+                for e in (-lim - 1)..=lim {
+                    let e = if e == -lim - 1 { None } else { Some(e) };
+                    let req = format!(
+                        "R {s} {} {step} {n}",
+                        e.map(|e| e.to_string()).unwrap_or_else(|| "_".into())
+                    );
+                    let res = hcommon::catch(|| {
+                        let r = SliceRange::new(s, e, step);
+                        let steps = r.steps(n);
+                        let resolved = r.resolve(n);
+                        let clamped = r.resolve_clamped(n);
+                        (steps, resolved, clamped)
+                    });
+                    let (ans, fail) = match res {
+                        Ok((steps, resolved, clamped)) => {
+                            let want = py_indices(s, e, step, n).len();
+                            let fail = if steps != want {
+                                Some(format!("SliceRange::steps = {steps}, CPython selects {want} indices"))
+                            } else {
+                                None
+                            };
+                            (
+                                format!(
+                                    "steps={steps} resolve={} clamped={}..{}",
+                                    resolved.map(|r| format!("{}..{}", r.start, r.end)).unwrap_or_else(|| "none".into()),
+                                    clamped.start,
+                                    clamped.end
+                                ),
+                                fail,
+                            )
+                        }
+                        Err(_) => ("panic".to_string(), None),
+                    };
+                    out.bucket("family_slice_range");
+                    out.case(&req, &ans, fail.as_deref(), false);
+                }
+            }
+        }
+    }
+}
+
 fn main() {
     let args = hcommon::parse_args();
     hcommon::quiet_panics();
@@ -1150,10 +1245,11 @@ fn run(args: &Args) {
     let mut out = Out::new(&args.out);
     let mut rng = Rng::new(args.seed);
     boundary_cases(&mut out);
+    range_cases(&mut out);
     large_copy_cases(&mut out, &mut rng, if args.thorough { 4000 } else { 400 });
     let n = if args.thorough { 400_000 } else { 40_000 };
     for i in 0..n {
         random_case(&mut out, &mut rng, i % 3 == 0);
     }
-    out.finish("large-copy family (400 / 4000 cases): 2..6-D sources with up to 1600 elements, inner sizes 1..67 straddling the 4x4 tile and 64x64 block of copy_blocked, innermost strides 1,2,3,16,20,32,48,64,96,128 and row strides 1..70 or past-the-row, optional broadcast/padded outer axes, followed by tc / rs / tr+tc / perm+tc / slc / stepped sl+tc / ma+tc, every case ending with to_vec, map, to_tensor and copy_from (contiguous and transposed destination) compared with element-wise get; exhaustive 1-D slice specs (start,stop in [-n-2,n+2] or omitted, steps ±1,±2,±3,±6, n=0..4) for slice and slice_copy; index+reversed-range combinations on transposed 2-D sources; random chains of 1..5 ops (perm tr mv sl slc sa ix bc ia ra sq ma spl spr rs tc, every third chain also app/clip) generated against the reference shape (1 in 14 ops deliberately invalid) on random sources: rank 0..4, sizes 0..4, contiguous / permuted / stepped / broadcast(stride 0) / arbitrary strides, optional slack at the end of the buffer; element values = storage offsets (unique ids); non-trivial = chain of >=2 ops with a result of >=2 elements; distinct by request text");
+    out.finish("SliceRange::steps/resolve/resolve_clamped driven directly for n=0..5, start/stop in [-n-2,n+2] or omitted, steps ±1,±2,±3,±7; rank-5/6 slice_copy cases (recursive copy branch) with reversed, stepped, shrinking, clamped ranges and index items at every axis position; large-copy family (400 / 4000 cases): 2..6-D sources with up to 1600 elements, inner sizes 1..67 straddling the 4x4 tile and 64x64 block of copy_blocked, innermost strides 1,2,3,16,20,32,48,64,96,128 and row strides 1..70 or past-the-row, optional broadcast/padded outer axes, followed by tc / rs / tr+tc / perm+tc / slc / stepped sl+tc / ma+tc, every case ending with to_vec, map, to_tensor and copy_from (contiguous and transposed destination) compared with element-wise get; exhaustive 1-D slice specs (start,stop in [-n-2,n+2] or omitted, steps ±1,±2,±3,±6, n=0..4) for slice and slice_copy; index+reversed-range combinations on transposed 2-D sources; random chains of 1..5 ops (perm tr mv sl slc sa ix bc ia ra sq ma spl spr rs tc, every third chain also app/clip) generated against the reference shape (1 in 14 ops deliberately invalid) on random sources: rank 0..4, sizes 0..4, contiguous / permuted / stepped / broadcast(stride 0) / arbitrary strides, optional slack at the end of the buffer; element values = storage offsets (unique ids); non-trivial = chain of >=2 ops with a result of >=2 elements; distinct by request text");
 }
